@@ -416,7 +416,7 @@ def multistream_case(job):
     ch.set_channel_seed(seed)
     ch.randomize(4, 4, 3)
     ch.noise_var = 0.01
-    s = solver_class(alg)(ch)
+    s = solver_class(alg)(ch) if not (alg == "ClosedForm" and seed % 2) else solver_class(alg)(ch, use_best_init=False)
     seed_solver(s, seed)
     if alg != "ClosedForm":
         s.max_iterations = 30
@@ -450,6 +450,14 @@ def multistream_case(job):
                 bad.append(f"own channel of user {k} is not turned into the identity")
         except Exception as ex:
             bad.append(f"full_W_H of user {k} cannot be evaluated: {type(ex).__name__}: {ex}")
+    if alg == "ClosedForm":
+        # the closed-form solution nulls every cross link, also with two streams per user
+        for k in range(3):
+            for l in range(3):
+                if k != l:
+                    leak = np.linalg.norm(np.asarray(s.W_H[k]).dot(ch.get_Hkl(k, l)).dot(s.F[l]))
+                    if leak > 1e-7:
+                        bad.append(f"closed-form solution (2 streams) leaks {leak:.2e} from user {l} into user {k}")
     return ("; ".join(bad) if bad else None), None
 
 
@@ -489,8 +497,9 @@ def solution_defects(s, ch, alg, K, Nr, Nt, pw):
     return bad
 
 
-CONFIGS = [  # (Nr, Nt, K, Ns): non-square antennas, unequal stream counts, four users
-    (2, 3, 3, 1), (3, 2, 3, 1), (3, 4, 3, [2, 1, 1]), (4, 3, 3, [1, 2, 1]), (4, 4, 3, [2, 1, 2]), (3, 3, 4, 1)]
+CONFIGS = [  # (Nr, Nt, K, Ns): non-square antennas, unequal stream counts, four users, two users
+    (2, 3, 3, 1), (3, 2, 3, 1), (3, 4, 3, [2, 1, 1]), (4, 3, 3, [1, 2, 1]), (4, 4, 3, [2, 1, 2]), (3, 3, 4, 1),
+    (2, 2, 2, 1), (3, 3, 2, [2, 1])]
 
 
 def config_case(job):
@@ -502,7 +511,9 @@ def config_case(job):
     ch = MultiUserChannelMatrix()
     ch.set_channel_seed(seed)
     ch.randomize(Nr, Nt, K)
-    ch.noise_var = 0.01
+    # without noise the MMSE solver loses its regularisation term; the max-SINR iteration is not defined then (the
+    # interference-plus-noise covariance it inverts becomes singular as the interference aligns)
+    ch.noise_var = None if (seed % 4 == 3 and alg != "MaxSINR") else 0.01
     s = solver_class(alg)(ch)
     seed_solver(s, seed)
     s.max_iterations = 40
@@ -530,19 +541,22 @@ def leak_multi_case(job):
     s.max_iterations = 1
     s.relative_factor = 0.0
     costs = []
+    # equal powers: the default, a scalar, an equal vector (also a very small one)
+    pw = (None, 1.7, np.full(K, 2.5), 1e-9)[seed % 4]
+    args = (np.array(Ns),) if pw is None else (np.array(Ns), pw)
     try:
-        s.solve(np.array(Ns))
+        s.solve(*args)
         costs.append(float(np.real(s.get_cost())))
         s.initialize_with = "fix"
         for _ in range(45):
-            s.solve(np.array(Ns))
+            s.solve(*args)
             costs.append(float(np.real(s.get_cost())))
     except Exception as ex:
         return f"{alg} Ns={Ns}: continued solve raised {type(ex).__name__}: {ex}", costs
-    floor = 1e-9 * max(1.0, costs[0])
+    floor = 1e-9 * max(costs[0], 1.0 if pw is None or np.max(pw) >= 1 else float(np.max(pw)))
     for i in range(len(costs) - 1):
         if costs[i + 1] > costs[i] + floor:
-            return f"{alg} {Nr}x{Nr} Ns={Ns} seed={seed}: leakage rose from {costs[i]:.8e} to {costs[i + 1]:.8e} at iteration {i + 2}", costs
+            return f"{alg} {Nr}x{Nr} Ns={Ns} P={pw} seed={seed}: leakage rose from {costs[i]:.8e} to {costs[i + 1]:.8e} at iteration {i + 2}", costs
     return None, costs
 
 
@@ -615,7 +629,8 @@ def run(ctx):
                 "transition on real solvers over seeded generic 3-user 2x2 channels; distinct = (abstract state, operation) pairs executed")
     ctx.assumptions += ["alignment numerics (unit norm, power, identity, nulling, leakage monotonicity) are evaluated numerically (rel), tolerance 1e-6",
                         "channels are generic (seeded complex Gaussian); K = 3, 2x2 antennas, one stream in the history machine",
-                        "after a channel change the stored solution is only required to be valid again after the next solve()"]
+                        "after a channel change the stored solution is only required to be valid again after the next solve()",
+                        "the max-SINR solver is taken to be defined for a positive noise variance only (without noise the covariance it inverts becomes singular as the interference aligns)"]
     thorough = ctx.tier == "thorough"
     mode = {"walks": 1500, "walk_len": 12} if thorough else {"walks": 40, "walk_len": 9}
     with ThreadPoolExecutor(5) as ex:
